@@ -7,7 +7,7 @@ replayed on the real classes; shear identity on the real solver and through the 
 import numpy
 
 from cv.core import MachineryError
-from cv.duck import DuckCalc, draw_case, draw_fractions, summary
+from cv.duck import DuckCalc, draw_case, draw_fractions, summary, twin_cases
 from cv.thermo_oracle import ThermoOracle
 from checks.c01 import compare, make_obj, read, replay_behaviours
 
@@ -20,6 +20,7 @@ def main(ctx, replay=None):
     cases = [draw_case(rng) for _ in range(ncases)]
     cases[0] = draw_case(rng, nq=1, nat=2)
     cases[1] = draw_case(rng, nq=8, nat=10)
+    twin_cases(rng, cases)
     oracle = ThermoOracle(ctx, [(c["nq"], c["na"]) for c in cases])
     ctx.cov["rule"] = ("random spectra as in C01 with arbitrary positive heat-capacity fields; a case is (spectrum, class, strain "
                        "pair); plus all 15 shear keys x strain fields for adi==iso; expected values from TLC normal forms")
